@@ -9,6 +9,7 @@ func checkC05(r *Run) {
 	r.NotDec = "acceptance by an independent follower for concrete pools (follows structurally from C01/C02/C04 rules on the same functions)"
 	ruleMathutilIdioms(r, "C05-R3")
 	ruleNoCrossedConfig(r, "C05-R0")
+	ruleTransactionIsLocked(r, "C05-R1")
 	ruleChainConfigPassthrough(r, "C05-R4")
 	const f = "visor.Visor.createBlockFromTxns"
 	// the candidates are the whole pool (raw), not a cached verdict: the conflict winner is decided among all of them
